@@ -107,6 +107,16 @@ type runner struct {
 	run    int
 	p      *prog.Program
 	closed bool
+	nans   map[string]int
+}
+
+func (r *runner) hasBoundary(node string) bool {
+	for _, n := range r.p.Nodes {
+		if n.Kind == "boundary" && n.Attached == node {
+			return true
+		}
+	}
+	return false
 }
 
 func (r *runner) add(rec Rec) {
@@ -228,6 +238,8 @@ func (r *runner) observe(tr tracing.ITrace) {
 		r.add(Rec{Ev: "boundary", Node: nodeId(t.Node), Ok: t.Start})
 		if t.Start {
 			r.bump("active:" + nodeId(t.Node))
+		} else {
+			r.bump("inactive:" + nodeId(t.Node))
 		}
 	case bpmn.DeterminationMadeTrace:
 		r.add(Rec{Ev: "determination", Node: nodeId(t.Node)})
@@ -304,7 +316,7 @@ func callWithin(T time.Duration, f func()) bool {
 // engine goroutine kills the process (the caller runs batches in worker
 // processes and attributes the crash to the run in progress).
 func Run(runIdx int, p *prog.Program, sch *Schedule, o Options) []Rec {
-	r := &runner{cnt: map[string]int{}, reqs: map[string][]*pendingReq{}, run: runIdx, p: p}
+	r := &runner{cnt: map[string]int{}, reqs: map[string][]*pendingReq{}, run: runIdx, p: p, nans: map[string]int{}}
 	r.cond = sync.NewCond(&r.mu)
 	rng := rand.New(rand.NewSource(o.Seed + int64(runIdx)*7919))
 
@@ -496,6 +508,16 @@ func (r *runner) perform(ctx context.Context, cancel context.CancelFunc, inst *b
 			r.add(Rec{Ev: "blocked", Kind: "do", Node: st.Node, Occ: st.Occ})
 			r.mu.Unlock()
 			return false
+		}
+		if st.Op == "answer" && r.hasBoundary(st.Node) {
+			// the host stops offering events to its boundary events only when
+			// the engine has taken the answer: wait for that (bounded, not an
+			// error) so that a following delivery does not race with the answer
+			r.mu.Lock()
+			r.nans[st.Node]++
+			want := r.nans[st.Node]
+			r.mu.Unlock()
+			r.waitPre(map[string]int{"inactive:" + st.Node: want}, 300*time.Millisecond)
 		}
 	case "answerc":
 		r.mu.Lock()
